@@ -85,6 +85,16 @@ ArgOfSrc(src, load) == <<src.kind, src.k, "id" \in src.S, "v" \in src.S, src.x, 
 \* ------------------------------------------------------------------ C46: partial expiry, attribute read, queries, external writer
 DoExpireV(s, o) == IF ~InMapS(s, o) THEN R(s, "InvalidRequestError")
                    ELSE R([s EXCEPT !.exp[o] = @ \cup {"v"}, !.v[o] = 0, !.cv[o] = NoHist], "ok")
+\* session.refresh(o, ["v"]): partial expiry, autoflush, one SELECT that loads v only
+DoRefreshV(s, o) ==
+  IF ~InMapS(s, o) THEN R(s, "InvalidRequestError")
+  ELSE LET s0 == DoExpireV(s, o).st f == DoFlush(s0) IN
+       IF f.ret # "ok" THEN f
+       ELSE IF s.needrb THEN R(f.st, "PendingRollbackError")
+       ELSE IF ~InMapS(f.st, o) THEN R(f.st, "InvalidRequestError")
+       ELSE LET s1 == Sql(AutoBegin(f.st), 1) IN
+            IF s1.work[s1.key[o]] = Absent THEN R(s1, "InvalidRequestError")
+            ELSE R([s1 EXCEPT !.v[o] = s1.work[s1.key[o]], !.exp[o] = @ \ {"v"}], "ok")
 Val(x) == "val:" \o ToString(x)
 \* getattr(o, "v"): from the dict when loaded, else InstanceState._load_expired (autoflush, one SELECT by identity key)
 DoRead(s, o) ==
@@ -114,6 +124,22 @@ DoQuery(s, sel, pe) ==      \* sel = -1: all rows; otherwise WHERE v = sel
        ELSE LET s1 == Sql(f.st, 1)
                 K == {k \in Keys : s1.work[k] # Absent /\ (sel = -1 \/ s1.work[k] = sel)}
             IN R(QueryCore(s1, K, pe), QNames(s1, K))
+\* queries whose entities are not mapped classes: plain Table columns, func.count, a literal over select_from(table) - through the
+\* legacy Query ("lcols", "lcount", "lfilt"), through Session.execute(select(table columns)) ("ccols", "ccount") and over mapped
+\* attributes ("ocols", "ocount").  All of them autoflush; they return rows / a number, never instances (no identity-map effect).
+CKinds == {"lcols", "lcount", "lfilt", "ccols", "ccount", "ocols", "ocount"}
+RowStr(w) == LET F[i \in 0..Cardinality(Keys)] ==
+                   IF i = 0 THEN "rows"
+                   ELSE IF w[i] # Absent THEN F[i - 1] \o ":" \o ToString(i) \o "=" \o ToString(w[i]) ELSE F[i - 1]
+             IN F[Cardinality(Keys)]
+CResult(w, kind, x) == IF kind \in {"lcols", "ccols", "ocols"} THEN RowStr(w)
+                       ELSE IF kind = "lfilt" THEN "n:" \o ToString(Cardinality({k \in Keys : w[k] = x}))
+                       ELSE "n:" \o ToString(Cardinality({k \in Keys : w[k] # Absent}))
+DoQueryC(s, kind, x) ==
+  IF s.needrb THEN R(s, "PendingRollbackError")
+  ELSE LET f == DoFlush(AutoBegin(s)) IN
+       IF f.ret # "ok" THEN f ELSE LET s1 == Sql(f.st, 1) IN R(s1, CResult(s1.work, kind, x))
+CArgs == {<<k, -1>> : k \in CKinds \ {"lfilt"}} \cup {<<"lfilt", x>> : x \in Vals}
 \* another connection commits a write; possible only while the session's connection holds no write transaction (legacy
 \* pysqlite mode: BEGIN is emitted before the first DML statement only, reads hold no lock between statements), and then the
 \* session's reads see the committed rows as they are now (the snapshot rule)
@@ -154,7 +180,7 @@ Post(s0, a, s1) ==
   LET c == Collect(s1) IN
   [c EXCEPT !.wr = IF c.tx = <<>> THEN FALSE ELSE s0.wr \/ (a \notin NonFlushers /\ ~Clean(s0)),
             !.stale = {o \in @ : InMapS(c, o) /\ "v" \notin c.exp[o]}]
-Refreshed(name, arg, ret) == IF name \in {"Refresh", "FRefresh"} /\ ret \in {"ok", "ok/ok"} THEN {arg[1]} ELSE {}
+Refreshed(name, arg, ret) == IF name \in {"Refresh", "FRefresh", "RefreshV"} /\ ret \in {"ok", "ok/ok"} THEN {arg[1]} ELSE {}
 StepX(name, arg, res) == \E r \in {res} : \E s1 \in {Post(st, name, [r.st EXCEPT !.stale = @ \ Refreshed(name, arg, r.ret)])} :
                            st' = s1 /\ last' = [a |-> name, arg |-> arg, ret |-> r.ret, ev |-> r.st.ev, sql |-> r.st.sql]
 InitX == st = InitStX /\ last = [a |-> "init", arg |-> <<>>, ret |-> "ok", ev |-> {}, sql |-> 0]
@@ -177,6 +203,7 @@ NextX == ~st.taint /\
        \* partial expiry of fully loaded objects that are not marked deleted (see above; an object with expired id AND the
        \* modified flag but no net change is loaded by the real flush, which the base module does not model)
        \/ (On("ExpireV") /\ (InMapS(st, o) => st.exp[o] = {} /\ o \notin st.sdel) /\ StepX("ExpireV", <<o>>, DoExpireV(Clear(st), o)))
+       \/ (On("ExpireV") /\ (InMapS(st, o) => st.exp[o] = {} /\ o \notin st.sdel) /\ StepX("RefreshV", <<o>>, DoRefreshV(Clear(st), o)))
        \/ (On("Refresh") /\ StepX("Refresh", <<o>>, DoRefresh(Clear(st), o)))
        \/ (On("FRefresh") /\ ~st.needrb /\ StepX("FRefresh", <<o>>, FThen(Clear(st), LAMBDA s : DoRefresh(s, o))))
        \/ (On("Read") /\ ReadOk(o) /\ StepX("Read", <<o>>, DoRead(Clear(st), o)))
@@ -192,6 +219,8 @@ NextX == ~st.taint /\
   \/ (On("Close") /\ StepX("Close", <<>>, DoClose(Clear(st))))
   \/ (On("Query") /\ \E pe \in BOOLEAN : StepX("QueryAll", <<pe>>, DoQuery(Clear(st), -1, pe)))
   \/ (On("QueryV") /\ \E x \in Vals : StepX("QueryV", <<x>>, DoQuery(Clear(st), x, FALSE)))
+  \/ (On("QueryC") /\ \E a \in CArgs : StepX("QueryC", a, DoQueryC(Clear(st), a[1], a[2])))
+  \/ (On("QueryC") /\ On("FQuery") /\ ~st.needrb /\ \E a \in CArgs : StepX("FQueryC", a, FThen(Clear(st), LAMBDA s : DoQueryC(s, a[1], a[2]))))
   \/ (On("FQuery") /\ ~st.needrb /\ \E pe \in BOOLEAN : StepX("FQueryAll", <<pe>>, FThen(Clear(st), LAMBDA s : DoQuery(s, -1, pe))))
   \/ (On("FQuery") /\ On("QueryV") /\ ~st.needrb /\ \E x \in Vals : StepX("FQueryV", <<x>>, FThen(Clear(st), LAMBDA s : DoQuery(s, x, FALSE))))
   \/ (On("Merge") /\ ~st.needrb /\ \E src \in Srcs : \E load \in (IF src.kind = "Dm" THEN {FALSE} ELSE BOOLEAN) :
@@ -258,7 +287,7 @@ ReadReflectsDb == [][ (last'.a = "Read" /\ IsVal(last'.ret)) =>
     ELSE last'.ret = Val(st.v[o]) /\ last'.sql = 0 /\ VX(st') = VX(st) ]_vars
 \* after expire / expire_all / refresh / commit (expire_on_commit) / populate_existing the affected objects are not stale any
 \* more and the next read gives the row of the transaction's view
-Affected(o) == \/ last'.a \in {"Expire", "ExpireV", "Refresh"} /\ last'.arg[1] = o
+Affected(o) == \/ last'.a \in {"Expire", "ExpireV", "Refresh", "RefreshV"} /\ last'.arg[1] = o
                \/ last'.a = "ExpireAll" \/ (last'.a = "Commit" /\ Eoc)
                \/ (last'.a = "QueryAll" /\ last'.arg[1] /\ InMapS(st', o) /\ st'.work[st'.key[o]] # Absent)
 ExpireMakesFresh == [][ last'.ret \in {"ok"} \cup {QNames(st', K) : K \in SUBSET Keys} =>
@@ -278,6 +307,9 @@ AutoflushEquiv == [][
     /\ (last'.a = "QueryV" => \E f \in {FThen(Clear(st), LAMBDA s : DoQuery(s, last'.arg[1], FALSE))} :
             IF f.ret \in {"IntegrityError/-", "StaleDataError/-", "ObjectDeletedError/-"} THEN f.ret = last'.ret \o "/-"
             ELSE f.ret = "ok/" \o last'.ret /\ V(Post(st, "QueryV", f.st)) = V(st') /\ f.st.sql = last'.sql /\ f.st.ev = last'.ev)
+    /\ (last'.a = "QueryC" => \E f \in {FThen(Clear(st), LAMBDA s : DoQueryC(s, last'.arg[1], last'.arg[2]))} :
+            IF f.ret \in {"IntegrityError/-", "StaleDataError/-", "ObjectDeletedError/-"} THEN f.ret = last'.ret \o "/-"
+            ELSE f.ret = "ok/" \o last'.ret /\ V(Post(st, "QueryC", f.st)) = V(st') /\ f.st.sql = last'.sql /\ f.st.ev = last'.ev)
     /\ ((last'.a = "Get" /\ ~st.needrb /\ (st.imap[last'.arg[1]] = NoObj \/ Expired(st, st.imap[last'.arg[1]]))) =>
             \E f \in {FThen(Clear(st), LAMBDA s : DoGet(s, last'.arg[1]))} :
             IF f.ret \in {"IntegrityError/-", "StaleDataError/-", "ObjectDeletedError/-"} THEN f.ret = last'.ret \o "/-"
@@ -294,6 +326,10 @@ QuerySeesFlushed == [][ (last'.a \in {"QueryAll", "QueryV"} /\ ~st.needrb) =>
     IF f.ret # "ok" THEN last'.ret = f.ret
     ELSE /\ st'.work = f.st.work
          /\ last'.ret = QNames(st', {k \in Keys : f.st.work[k] # Absent /\ (last'.a = "QueryAll" \/ f.st.work[k] = last'.arg[1])}) ]_vars
+ColumnQuerySeesFlushed == [][ (last'.a = "QueryC" /\ ~st.needrb) =>
+    LET f == DoFlush(AutoBegin(Clear(st))) IN
+    IF f.ret # "ok" THEN last'.ret = f.ret
+    ELSE st'.work = f.st.work /\ last'.ret = CResult(f.st.work, last'.arg[1], last'.arg[2]) ]_vars
 \* ---------- C48
 NoChangeLost == ~st.lost
 \* dropping a reference never changes what the next flush writes
